@@ -623,6 +623,7 @@ class SessionTerminationRequest(DiameterRequest):
     }
     optionals = {
                     # "drmp": DrmpAVP,
+                    "user_name": UserNameAVP,
                     "destination_host": DestinationHostAVP,
                     # "oc_supported_features": OcSupportedFeaturesAVP,
                     # "required_access_info": RequiredAccessInfoAVP,
